@@ -13,8 +13,11 @@ from ..hist import build, mk_settings
 
 ID = 'C16'
 TEXTS = ['abAb', 'aab', 'a.b', '(a)', 'aaa', '']
-PLAIN = ['a', 'ab', 'b', '.', 'a.', '(', 'A', '']
-REGEX = ['a', 'a|b', 'b*', '(?=a)', '[ab]+', 'a?', 'A', '(a)(b)?']
+# the same spec texts are used both as plain text and as regular expressions (where they are valid patterns), in
+# one process and in both orders, so that state kept between calls (a pattern cache, say) cannot hide behind
+# disjoint inputs
+PLAIN = ['a', 'ab', 'b', '.', 'a.', '(', 'A', '', 'b*', 'a|b', 'a?']
+REGEX = ['a', 'a|b', 'b*', '(?=a)', '[ab]+', 'a?', 'A', '(a)(b)?', '.', 'a.', '']
 COUNTS = [-1, -2, 0, 1, 2, 10]
 
 
@@ -130,7 +133,7 @@ def run_task(task, acc):
         acc.state(model.canon_hash(v))
         acc.evaluations += 1
         for which, menu in (('fmt', fmt_menu(acc.seed)), ('unfmt', unfmt_menu(acc.seed))):
-            for regex, pats in ((False, PLAIN), (True, REGEX)):
+            for regex, pats in (((False, PLAIN), (True, REGEX)) if hi % 2 == 0 else ((True, REGEX), (False, PLAIN))):
                 for pat in pats:
                     for mc_ in (True, False):
                         for count in COUNTS:
